@@ -43,92 +43,72 @@ Example C01_gap_nonvacuous :
   gap_ok [32; 35; 97; 123; 34; 61; 35; 10; 13; 10; 9; 59; 32]%N.
 Proof. apply gap_okb_sound. reflexivity. Qed.
 
-(* 5. THE PROPERTY (full statement, kept visible; proved below for growing sub-grammars):
+(* 5. THE PROPERTY, for the whole grammar of TextDoc.v (every construct of props/textdoc.py:
+   fields with all 8 operators, quoted/unquoted scalars, nested objects and arrays, empty
+   containers, arrays of containers, `key {` without `=`, headers, mixed containers of both kinds,
+   parameter values and parameter objects, also as the first member of an object) and EVERY
+   layout: any gap of white space / CR / LF / ';' / complete comments between any two tokens and
+   around the document, optional BOM.  [wf_layout] only asks that a bare word is followed by a
+   boundary byte and that the BOM flag is truthful.  Block positions are irrelevant because the
+   scanner theorems 2 and 3 hold for every length and offset. *)
+Theorem C01_parse_render : forall d l,
+  wf_doc d -> wf_layout d l -> parse (render d l) = Ok (flatten d, bom l).
+Proof. exact parse_render. Qed.
+Print Assumptions C01_parse_render.
 
-   | Theorem C01_parse_render : forall d l,
-   |   wf_doc d -> wf_layout d l -> parse (render d l) = Ok (flatten d, bom l).
-   | Corollary C01_layout_independent : forall d l1 l2,
-   |   wf_doc d -> wf_layout d l1 -> wf_layout d l2 ->
-   |   omap fst (parse (render d l1)) = omap fst (parse (render d l2)).                            *)
+Theorem C01_layout_independent : forall d l1 l2,
+  wf_doc d -> wf_layout d l1 -> wf_layout d l2 ->
+  omap fst (parse (render d l1)) = omap fst (parse (render d l2)).
+Proof. exact layout_independent. Qed.
+Print Assumptions C01_layout_independent.
 
-(* stage 1: top-level fields `key op scalar` — all 8 operators, quoted and unquoted keys and
-   values, EVERY layout (gaps of white space, CR/LF, ';', comments; BOM; left padding) *)
-Theorem C01_parse_render_flat : forall d l,
-  flat_doc d = true -> wf_doc d -> wf_layout d l -> parse (render d l) = Ok (flatten d, bom l).
-Proof. exact parse_render_flat. Qed.
-Print Assumptions C01_parse_render_flat.
+(* left padding 0..oo is a special case of a layout *)
+Theorem C01_padding_independent : forall d l pad,
+  wf_doc d -> wf_layout d l -> gap_ok pad ->
+  parse (render d (with_pad pad l)) = parse (render d l).
+Proof. exact padding_independent. Qed.
+Print Assumptions C01_padding_independent.
 
-(* stage 2: no parameters, no mixed containers (`plain_fields`): nested objects, arrays of scalars
-   and of containers, empty containers `{}`, headers `rgb { .. }`, `key {` without `=`, all
-   operators, quoted/unquoted keys and values — EVERY layout *)
-Theorem C01_parse_render_plain : forall d l,
-  plain_fields d = true -> wf_doc d -> wf_layout d l -> parse (render d l) = Ok (flatten d, bom l).
-Proof. exact parse_render_plain. Qed.
-Print Assumptions C01_parse_render_plain.
-
-(* non-vacuity:  a={b="x y" "c"<1} l{1{3}{}} h=rgb{1}  with a comment directly after an operator,
-   CRLF, ';' and left padding *)
+(* non-vacuity: a document using every construct
+     [[p] 1 ] [[!q] k = v ] a = { [[x] y ] b = "x y" } m = { a = 1 x "y" } n = { p q r != s t = u }
+     l { 1 { 3 } { } } h = rgb { 1 } "k" ?= "0123456789abcde" z >= 0
+   with a comment directly after an operator (gap 6), no left padding, CRLF, ';', and a quoted
+   scalar of 15 bytes (closing quote on byte 15 of the first 16-byte block of its haystack) *)
 Open Scope N_scope.
 Definition ex_doc : doc :=
-  FCons (Field Unq [97] (Some Equal)
-           (VObject (FCons (Field Unq [98] (Some Equal) (VScalar Quo [120;32;121]))
-                    (FCons (Field Quo [99] (Some LessThan) (VScalar Unq [49])) FNil)) VNil))
- (FCons (Field Unq [108] None
-           (VArray (VCons (VScalar Unq [49]) (VCons (VArray (VCons (VScalar Unq [51]) VNil)) (VCons (VArray VNil) VNil)))))
- (FCons (Field Unq [104] (Some Equal) (VHeader [114;103;98] (VArray (VCons (VScalar Unq [49]) VNil)))) FNil)).
-Definition ex_layout (b : bool) : layout :=
-  mkLayout b (fun i => nth i [[32]; []; [35;99;10]; []; []; []; [32]; []; []; []; [13;10]; []; []; []; []; []; []; []; [];
-                              [59;32]; []; []; []; []; []; [10]] []).
-Open Scope nat_scope.
-
-Example C01_plain_nonvacuous : forall b,
-  plain_fields ex_doc = true /\ wf_doc ex_doc /\ wf_layout ex_doc (ex_layout b).
-Proof.
-  intros b. split; [reflexivity|]. split; [reflexivity|]. split; [|split].
-  - intros i. cbn [ex_layout gap].
-    do 26 (destruct i as [|i]; [apply gap_okb_sound; reflexivity|]). destruct i; constructor.
-  - cbn. repeat split; intros H; try discriminate H; try reflexivity; exact I.
-  - cbn [ex_layout bom]. intros ->. reflexivity.
-Qed.
-
-Example C01_plain_example_runs :
-  parse (render ex_doc (ex_layout true)) = Ok (flatten ex_doc, true).
-Proof. vm_compute. reflexivity. Qed.
-
-(* stage 3: everything but parameter blocks (`noparam_fields`): in addition to stage 2, mixed
-   containers — objects followed by bare values `{ a=b c d }` and arrays that turn into key-value
-   lists `{ a b c=d e>=f }` — EVERY layout *)
-Theorem C01_parse_render_noparam : forall d l,
-  noparam_fields d = true -> wf_doc d -> wf_layout d l -> parse (render d l) = Ok (flatten d, bom l).
-Proof. exact parse_render_noparam. Qed.
-Print Assumptions C01_parse_render_noparam.
-
-(* non-vacuity:  m={a=1 x "y"} n={p q r!=s t=u}  *)
-Open Scope N_scope.
-Definition ex_mixed : doc :=
-  FCons (Field Unq [109] (Some Equal)
+  FCons (ParamV [112] false [49])
+ (FCons (ParamO [113] true (FCons (Field Unq [107] (Some Equal) (VScalar Unq [118])) FNil))
+ (FCons (Field Unq [97] (Some Equal)
+           (VObject (FCons (ParamV [120] false [121])
+                    (FCons (Field Unq [98] (Some Equal) (VScalar Quo [120;32;121])) FNil)) VNil))
+ (FCons (Field Unq [109] (Some Equal)
            (VObject (FCons (Field Unq [97] (Some Equal) (VScalar Unq [49])) FNil)
                     (VCons (VScalar Unq [120]) (VCons (VScalar Quo [121]) VNil))))
  (FCons (Field Unq [110] (Some Equal)
            (VArrayKv (VCons (VScalar Unq [112]) (VCons (VScalar Unq [113]) VNil))
                      (FCons (Field Unq [114] (Some NotEqual) (VScalar Unq [115]))
-                     (FCons (Field Unq [116] (Some Equal) (VScalar Unq [117])) FNil)))) FNil).
-Definition ex_mixed_layout : layout :=
-  mkLayout false (fun i => nth i [[]; []; []; []; []; []; [32]; [9]; []; [10]; []; []; []; [32]; [32]; []; []; [32]; []; []; []; []] []).
+                     (FCons (Field Unq [116] (Some Equal) (VScalar Unq [117])) FNil))))
+ (FCons (Field Unq [108] None
+           (VArray (VCons (VScalar Unq [49]) (VCons (VArray (VCons (VScalar Unq [51]) VNil)) (VCons (VArray VNil) VNil)))))
+ (FCons (Field Unq [104] (Some Equal) (VHeader [114;103;98] (VArray (VCons (VScalar Unq [49]) VNil))))
+ (FCons (Field Quo [107] (Some TextTok.Exists) (VScalar Quo [48;49;50;51;52;53;54;55;56;57;97;98;99;100;101]))
+ (FCons (Field Unq [122] (Some GreaterThanEqual) (VScalar Unq [48])) FNil)))))))).
+Definition ex_layout (b : bool) : layout :=
+  mkLayout b (fun i => if Nat.eqb i 0 then [] else if Nat.eqb i 6 then [35;99;32;123;34;10]
+                       else if Nat.eqb i 9 then [13;10;9] else if Nat.eqb i 20 then [32;59;32] else [32]).
 Open Scope nat_scope.
 
-Example C01_noparam_nonvacuous :
-  noparam_fields ex_mixed = true /\ wf_doc ex_mixed /\ wf_layout ex_mixed ex_mixed_layout.
+Example C01_nonvacuous : forall b, wf_doc ex_doc /\ wf_layout ex_doc (ex_layout b).
 Proof.
-  split; [reflexivity|]. split; [reflexivity|]. split; [|split].
-  - intros i. cbn [ex_mixed_layout gap].
-    do 22 (destruct i as [|i]; [apply gap_okb_sound; reflexivity|]). destruct i; constructor.
+  intros b. split; [reflexivity|]. split; [|split].
+  - intros i. cbn [ex_layout gap].
+    repeat match goal with |- context [Nat.eqb i ?k] => destruct (Nat.eqb i k) end;
+      apply gap_okb_sound; reflexivity.
   - cbn. repeat split; intros H; try discriminate H; try reflexivity; exact I.
-  - intros _. reflexivity.
+  - cbn [ex_layout bom]. intros ->. reflexivity.
 Qed.
 
-Example C01_noparam_example_runs :
-  parse (render ex_mixed ex_mixed_layout) = Ok (flatten ex_mixed, false) /\
-  render ex_mixed ex_mixed_layout =
-  [109;61;123;97;61;49;32;120;9;34;121;34;125;10;110;61;123;112;32;113;32;114;33;61;115;32;116;61;117;125]%N.
+Example C01_example_runs :
+  parse (render ex_doc (ex_layout true)) = Ok (flatten ex_doc, true) /\
+  length (flatten ex_doc) = 54.
 Proof. split; vm_compute; reflexivity. Qed.
